@@ -396,7 +396,16 @@ func (se *ShapeEval) evalEntryList(entry *FuncRef, list []ast.Stmt) {
 		}
 		// `for _, part := range []string{b.A, b.B, …} { f.WriteString(part) }`: the writes of the listed fields, in order
 		if rs, ok := s.(*ast.RangeStmt); ok && rs.Value != nil && len(rs.Body.List) == 1 {
-			if lit, ok := unparen(rs.X).(*ast.CompositeLit); ok {
+			listExpr := unparen(rs.X)
+			if o := identObj(info, listExpr); o != nil {
+				// the list of parts held in a local defined once
+				defs := newDefs(info)
+				defs.scan(entry.Decl.Body)
+				if defs.count[o] == 1 && defs.single[o] != nil {
+					listExpr = unparen(defs.single[o])
+				}
+			}
+			if lit, ok := listExpr.(*ast.CompositeLit); ok {
 				if es, ok := rs.Body.List[0].(*ast.ExprStmt); ok {
 					if call, ok := es.X.(*ast.CallExpr); ok && len(call.Args) == 1 && identObj(info, call.Args[0]) == identObj(info, rs.Value) {
 						if f := callee(info, call); f != nil && f.FullName() == "(*os.File).WriteString" {
@@ -847,20 +856,24 @@ func (se *ShapeEval) loop(fr *shapeFrame, s ast.Stmt) {
 	case *ast.ForStmt:
 		body = l.Body
 		init, ok := l.Init.(*ast.AssignStmt)
-		cond, ok2 := l.Cond.(*ast.BinaryExpr)
 		post, ok3 := l.Post.(*ast.IncDecStmt)
-		if !ok || !ok2 || !ok3 || len(init.Lhs) != 1 || cond.Op != token.LSS || post.Tok != token.INC {
+		if !ok || l.Cond == nil || !ok3 || len(init.Lhs) != 1 || post.Tok != token.INC {
+			se.errf(s.Pos(), "for loop is not of the form `for i := c; i < bound; i++`")
+			return
+		}
+		bound, okB := upperBound(info, l.Cond, identObj(info, init.Lhs[0]))
+		if !okB {
 			se.errf(s.Pos(), "for loop is not of the form `for i := c; i < bound; i++`")
 			return
 		}
 		lo, isC := constInt(info, init.Rhs[0])
-		if !isC || identObj(info, cond.X) != identObj(info, init.Lhs[0]) || identObj(info, post.X) != identObj(info, init.Lhs[0]) {
+		if !isC || identObj(info, post.X) != identObj(info, init.Lhs[0]) {
 			se.errf(s.Pos(), "for loop counter is not a simple ascending counter from a constant")
 			return
 		}
 		lp.Lo = lo
 		lp.Var = "$" + identObj(info, init.Lhs[0]).Name()
-		lp.Over = fr.pc.path(cond.Y)
+		lp.Over = fr.pc.path(bound)
 	}
 	// builder fields first assigned inside the loop start from their zero value
 	ast.Inspect(body, func(n ast.Node) bool {
